@@ -26,10 +26,10 @@ ASSUMPTIONS = {"C16": ["the HAL simulator's waitForNotifierAlarm returns when th
 def shards(pid, tier, seed):
     if tier == "quick":
         return ([{"mode": "threaded", "n": 40} for _ in range(4)] + [{"mode": "threaded", "n": 12, "start_at": 2 ** 32 - 400000}]
-                + [{"mode": "threaded", "n": 1, "marathon": 70000}]        # one delay object that waits 70 000 times (23 min of a 50 Hz loop)
+                + [{"mode": "threaded", "n": 1, "marathon": 70000, "start_at": 2 * 10 ** 11}]     # one delay object that waits 70 000 times (23 min of a 50 Hz loop), on a robot that has been up for 55 h
                 + [{"mode": "convert", "lo": 1000, "hi": 100000, "stride": 9, "offset": i} for i in range(2)])
     return ([{"mode": "threaded", "n": 1500} for _ in range(14)] + [{"mode": "threaded", "n": 200, "start_at": 2 ** 32 - 3000000}]
-            + [{"mode": "threaded", "n": 1, "marathon": 70000}]        # one delay object that waits 70 000 times (23 min of a 50 Hz loop)
+            + [{"mode": "threaded", "n": 1, "marathon": 70000}, {"mode": "threaded", "n": 1, "marathon": 70000, "start_at": 2 * 10 ** 11}]     # (right after boot, and after 55 h of uptime)
             + [{"mode": "convert", "lo": 1000 + i * 24750, "hi": min(100000, 1000 + (i + 1) * 24750 - 1), "stride": 1, "offset": 0} for i in range(4)])
 
 
@@ -342,7 +342,7 @@ def run_shard(spec):
         if spec.get("start_at"):
             case["start_at"] = spec["start_at"]
             case["P"] = max(case["P"], 20000)
-            acc.ev("clock-around-2^32us")
+            acc.ev("clock-around-2^32us" if spec["start_at"] < 2 ** 33 else "fpga-time-of-many-hours")
         r = run_threaded(acc, case)
         for _retry in range(2):
             if r is None or not spec.get("marathon") or acc.violations:
